@@ -85,7 +85,8 @@ Record facts := mkFacts {
   f_clear_protected : bool;                       (* ACTIVATE_CONFIG.clear() runs even if a re-import raises *)
   f_singleton_global : bool;                      (* _BaseSession.__new__ keeps one instance for all engine classes *)
   f_noconn : list string;                         (* engines whose Builder.session ignores the stored connection *)
-  f_selfref : list string                         (* engines whose Builder imports pyspark.sql.session when used *)
+  f_selfref : list string;                        (* engines whose Builder imports pyspark.sql.session when used *)
+  f_cached : list string                          (* engines whose Builder.session is a cached_property *)
 }.
 
 Definition pkg_names fa e := assoc_list e (f_pkg_names fa).
@@ -139,16 +140,18 @@ Record state := mkState {
   pattr : list (string * string);       (* (e, f): the package sqlframe.<e> has an attribute <f> (a sub-module) *)
   config : list (string * nat);         (* ACTIVATE_CONFIG, values as identities *)
   sess : sess_state;                    (* _BaseSession._instance *)
+  bcache : list (string * (string * option nat));   (* engine -> the session its Builder has cached (engine, connection) *)
   junk : bool                           (* a failed import of the real pyspark.testing left sub-modules of it (and of
                                            pyspark.pandas) in sys.modules; re-importing any of them fails again *)
 }.
-Definition init_state : state := mkState None None None [] [] [] SNone false.
+Definition init_state : state := mkState None None None [] [] [] SNone [] false.
 
-Definition set_pys (s : state) t q ts sb := mkState t q ts sb (pattr s) (config s) (sess s) (junk s).
-Definition set_subs (s : state) sb := mkState (top s) (sql s) (tst s) sb (pattr s) (config s) (sess s) (junk s).
-Definition set_pattr (s : state) pa := mkState (top s) (sql s) (tst s) (subs s) pa (config s) (sess s) (junk s).
-Definition set_sess (s : state) x := mkState (top s) (sql s) (tst s) (subs s) (pattr s) (config s) x (junk s).
-Definition set_junk (s : state) := mkState (top s) (sql s) (tst s) (subs s) (pattr s) (config s) (sess s) true.
+Definition set_pys (s : state) t q ts sb := mkState t q ts sb (pattr s) (config s) (sess s) (bcache s) (junk s).
+Definition set_subs (s : state) sb := mkState (top s) (sql s) (tst s) sb (pattr s) (config s) (sess s) (bcache s) (junk s).
+Definition set_pattr (s : state) pa := mkState (top s) (sql s) (tst s) (subs s) pa (config s) (sess s) (bcache s) (junk s).
+Definition set_sess (s : state) x := mkState (top s) (sql s) (tst s) (subs s) (pattr s) (config s) x (bcache s) (junk s).
+Definition set_bcache (s : state) b := mkState (top s) (sql s) (tst s) (subs s) (pattr s) (config s) (sess s) b (junk s).
+Definition set_junk (s : state) := mkState (top s) (sql s) (tst s) (subs s) (pattr s) (config s) (sess s) (bcache s) true.
 
 (* ------------------------------------------------------------------------------------------------ *)
 (** * events and observations *)
@@ -343,7 +346,7 @@ Definition attrs_after_import (e : string) (s : state) : list (string * string) 
 Definition activate (e : string) (c : option nat) (kv : list (string * nat)) (s : state) : eobs * state :=
   let cfg := store_config c kv s in
   match assoc e (f_engines fa) with
-  | None => (ERaised, mkState (Some (Mock None)) (sql s) (Some Testing) (subs s) (pattr s) cfg (sess s) (junk s))
+  | None => (ERaised, mkState (Some (Mock None)) (sql s) (Some Testing) (subs s) (pattr s) cfg (sess s) (bcache s) (junk s))
   | Some prefix =>
       let pa1 := attrs_after_import e s in
       let regs := reg_files e prefix pa1 in
@@ -351,7 +354,7 @@ Definition activate (e : string) (c : option nat) (kv : list (string * nat)) (s 
       (if length good =? length regs then EOk else ERaised,
        mkState (Some (Mock (Some e))) (Some (SfPkg e)) (Some Testing)
                (fold_left (fun acc f => (f, Sf e f) :: acc) good (subs s))
-               (pa1 ++ map (pair e) good) cfg (sess s) (junk s))
+               (pa1 ++ map (pair e) good) cfg (sess s) (bcache s) (junk s))
   end.
 
 (** ** deactivate *)
@@ -368,8 +371,8 @@ Definition deactivate (s : state) : eobs * state :=
    if (any_present s || junk s) && installed en
    then mkState (Some Real) (Some Real)
                 (if is_some (tst s) && rimp_eqb (testing_imp en) ROk then Some Real else None)
-                (map (fun f => (f, Real)) (bundle en)) (pattr s) cfg (sess s) (testing_fails s)
-   else mkState None None None [] (pattr s) cfg (sess s) (junk s)).
+                (map (fun f => (f, Real)) (bundle en)) (pattr s) cfg (sess s) (bcache s) (testing_fails s)
+   else mkState None None None [] (pattr s) cfg (sess s) (bcache s) (junk s)).
 
 Definition exit_deactivates (k : exitkind) : bool :=
   match k with XNormal => true | _ => f_ctx_finally fa end.
@@ -380,15 +383,26 @@ Definition create_session (e : string) (s : state) : eobs * state :=
   let c := if mem e (f_noconn fa) then None else assoc (f_conn_key fa) (config s) in
   if is_bad c && mem e (bad_raises en) then (GRaise, set_sess s SPoisoned)
   else (GSession e c, set_sess s (SLive e c)).
+(** a Builder whose `session` is a cached_property keeps returning the first session it ever built *)
+Definition remember (e : string) (r : eobs * state) : eobs * state :=
+  match r with
+  | (GSession e0 c0, s') => if mem e (f_cached fa) then (GSession e0 c0, set_bcache s' ((e, (e0, c0)) :: bcache s')) else r
+  | _ => r
+  end.
 Definition get_or_create (s : state) : eobs * state :=
   let '(o, s1) := import_sql s in
   match o with
   | EMod (SfPkg e) =>
       if mem e (f_selfref fa) then (GRaise, s1)
-      else match sess s1 with
-           | SPoisoned => (GUnknown, s1)
-           | SLive e0 c0 => if String.eqb e0 e || f_singleton_global fa then (GSession e0 c0, s1) else create_session e s1
-           | SNone => create_session e s1
+      else match (if mem e (f_cached fa) then assoc e (bcache s1) else None) with
+           | Some (e0, c0) => (GSession e0 c0, s1)
+           | None =>
+               match sess s1 with
+               | SPoisoned => (GUnknown, s1)
+               | SLive e0 c0 => if String.eqb e0 e || f_singleton_global fa then remember e (GSession e0 c0, s1)
+                                else remember e (create_session e s1)
+               | SNone => remember e (create_session e s1)
+               end
            end
   | EMod Real => (GReal, s1)
   | EMod _ => (EError, s1)
@@ -614,13 +628,14 @@ Definition diagnose (ss : sstate) (s : state) (ev : event) : string :=
       | Some (e, c), Some e' =>
           if negb (String.eqb e e') then "u"
           else if mem e (f_selfref fa) then "P"
-          else match sess s with
-               | SLive e0 _ => if String.eqb e0 e then "u" else "S"
-               | SNone => match assoc (f_conn_key fa) (config s), c with
-                          | Some k, None => if in_hist e (Some k) (hist ss) then "u" else "C"
-                          | _, _ => "u"
-                          end
-               | SPoisoned => "u"
+          else match (if mem e (f_cached fa) then assoc e (bcache s) else None), sess s with
+               | Some (e0, _), _ => if String.eqb e0 e then "u" else "S"
+               | None, SLive e0 _ => if String.eqb e0 e then "u" else "S"
+               | None, SNone => match assoc (f_conn_key fa) (config s), c with
+                                | Some k, None => if in_hist e (Some k) (hist ss) then "u" else "C"
+                                | _, _ => "u"
+                                end
+               | None, SPoisoned => "u"
                end
       | None, None => if is_nil (config s) then "u" else "R"
       | _, _ => "u"
